@@ -35,7 +35,8 @@ def decide(pid, tier, seed, prop, replay, t0, ck):
     if tier == "thorough" and bok:
         r = ck.sh(["lake", "env", "leanchecker", prop["module"]], cwd=ck.LEAN)
         obligations.append(("leanchecker %s" % prop["module"], r.returncode == 0, "" if r.returncode == 0 else _tail(r.stdout)))
-    hok, hout = ck.build_harness()
+    ck.RACE = bool(prop.get("race"))
+    hok, hout = ck.build_harness(race=ck.RACE)
     obligations.append(("go:harness builds against /repo working tree (-tags verif)", hok, "" if hok else _tail(hout)))
 
     stats = dict(evaluations=0, ok=0, diff=0, skip=0, rejected=0, crash=0)
